@@ -150,3 +150,102 @@ theorem card_vol_le_one (S : Finset (Fin 1 → ℤ)) (o h c : Fin 1 → ℝ) (hh
   exact (ENNReal.ofReal_le_ofReal_iff (by positivity)).mp hb
 
 end DV.Lattice
+
+/-! ### the covering bound (the ball of radius R − ρ is covered by the cells) -/
+
+open MeasureTheory Metric Set WithLp
+
+namespace DV.Lattice
+variable {d : ℕ}
+
+/-- every point lies in the cell of some lattice point -/
+theorem exists_cell (o h : Fin d → ℝ) (hh : ∀ a, 0 < h a) (y : Fin d → ℝ) : ∃ n : Fin d → ℤ, y ∈ cell (centre o h n) h := by
+  refine ⟨fun a => ⌊(y a - o a) / h a⌋, ?_⟩
+  intro a _
+  simp only [centre, mem_Ico]
+  have hpos := hh a
+  have h1 := Int.floor_le ((y a - o a) / h a)
+  have h2 := Int.lt_floor_add_one ((y a - o a) / h a)
+  rw [le_div_iff₀ hpos] at h1
+  rw [div_lt_iff₀ hpos] at h2
+  constructor <;> nlinarith
+
+/-- **Covering bound**: if `T` contains every lattice point whose cell centre lies within `R` of `c`, the ball of radius
+`R − ρ` (ρ = half the cell diagonal) is covered by the cells of `T`; hence its volume is at most (number of cells) × (cell volume). -/
+theorem ball_le_card_mul_cell (T : Finset (Fin d → ℤ)) (o h c : Fin d → ℝ) (hh : ∀ a, 0 < h a) (R : ℝ)
+    (hT : ∀ n : Fin d → ℤ, ‖(toLp 2 (centre o h n) : EuclideanSpace ℝ (Fin d)) - toLp 2 c‖ < R → n ∈ T) :
+    volume (ball (toLp 2 c : EuclideanSpace ℝ (Fin d)) (R - halfDiag h)) ≤ (T.card : ENNReal) * ENNReal.ofReal (∏ a, h a) := by
+  set U : Set (Fin d → ℝ) := ⋃ n ∈ T, cell (centre o h n) h with hU
+  have hUm : MeasurableSet U := Finset.measurableSet_biUnion _ fun n _ => measurable_cell _ _
+  have hvolU : volume U ≤ (T.card : ENNReal) * ENNReal.ofReal (∏ a, h a) := by
+    rw [hU]
+    refine le_trans (measure_biUnion_finset_le _ _) ?_
+    simp only [volume_cell _ _ (fun a => (hh a).le), Finset.sum_const, nsmul_eq_mul, le_refl]
+  refine le_trans ?_ hvolU
+  rw [← (PiLp.volume_preserving_ofLp (Fin d)).measure_preimage hUm.nullMeasurableSet]
+  apply measure_mono
+  intro y hy
+  rw [mem_ball, dist_eq_norm] at hy
+  simp only [mem_preimage, hU, mem_iUnion]
+  obtain ⟨n, hn⟩ := exists_cell o h hh (ofLp y)
+  refine ⟨n, hT n ?_, hn⟩
+  have h1 := cell_near (centre o h n) h (fun a => (hh a).le) hn
+  have e : (toLp 2 (centre o h n) : EuclideanSpace ℝ (Fin d)) - toLp 2 c
+      = -((toLp 2 (ofLp y) : EuclideanSpace ℝ (Fin d)) - toLp 2 (centre o h n)) + (y - toLp 2 c) := by
+    have : (toLp 2 (ofLp y) : EuclideanSpace ℝ (Fin d)) = y := rfl
+    rw [this]; abel
+  rw [e]
+  calc ‖-((toLp 2 (ofLp y) : EuclideanSpace ℝ (Fin d)) - toLp 2 (centre o h n)) + (y - toLp 2 c)‖
+      ≤ ‖-((toLp 2 (ofLp y) : EuclideanSpace ℝ (Fin d)) - toLp 2 (centre o h n))‖ + ‖y - toLp 2 c‖ := norm_add_le _ _
+    _ = ‖(toLp 2 (ofLp y) : EuclideanSpace ℝ (Fin d)) - toLp 2 (centre o h n)‖ + ‖y - toLp 2 c‖ := by rw [norm_neg]
+    _ < R := by unfold halfDiag at hy; linarith
+
+
+theorem card_vol_ge_three (T : Finset (Fin 3 → ℤ)) (o h c : Fin 3 → ℝ) (hh : ∀ a, 0 < h a) (R : ℝ) (hR : 0 ≤ R - halfDiag h)
+    (hT : ∀ n : Fin 3 → ℤ, ‖(toLp 2 (centre o h n) : EuclideanSpace ℝ (Fin 3)) - toLp 2 c‖ < R → n ∈ T) :
+    (R - halfDiag h) ^ 3 * (Real.pi * 4 / 3) ≤ (T.card : ℝ) * ∏ a, h a := by
+  have hb := ball_le_card_mul_cell T o h c hh R hT
+  rw [EuclideanSpace.volume_ball_fin_three] at hb
+  have e1 : (T.card : ENNReal) * ENNReal.ofReal (∏ a, h a) = ENNReal.ofReal ((T.card : ℝ) * ∏ a, h a) := by
+    rw [ENNReal.ofReal_mul (Nat.cast_nonneg _), ENNReal.ofReal_natCast]
+  have e2 : ENNReal.ofReal (R - halfDiag h) ^ 3 * ENNReal.ofReal (Real.pi * 4 / 3)
+      = ENNReal.ofReal ((R - halfDiag h) ^ 3 * (Real.pi * 4 / 3)) := by
+    rw [ENNReal.ofReal_mul (pow_nonneg hR 3), ENNReal.ofReal_pow hR]
+  rw [e1] at hb
+  change ENNReal.ofReal (R - halfDiag h) ^ 3 * ENNReal.ofReal (Real.pi * 4 / 3) ≤ _ at hb
+  rw [e2] at hb
+  have hprod : 0 ≤ (T.card : ℝ) * ∏ a, h a := mul_nonneg (Nat.cast_nonneg _) (Finset.prod_nonneg fun a _ => (hh a).le)
+  exact (ENNReal.ofReal_le_ofReal_iff hprod).mp hb
+
+theorem card_vol_ge_two (T : Finset (Fin 2 → ℤ)) (o h c : Fin 2 → ℝ) (hh : ∀ a, 0 < h a) (R : ℝ) (hR : 0 ≤ R - halfDiag h)
+    (hT : ∀ n : Fin 2 → ℤ, ‖(toLp 2 (centre o h n) : EuclideanSpace ℝ (Fin 2)) - toLp 2 c‖ < R → n ∈ T) :
+    (R - halfDiag h) ^ 2 * Real.pi ≤ (T.card : ℝ) * ∏ a, h a := by
+  have hb := ball_le_card_mul_cell T o h c hh R hT
+  rw [EuclideanSpace.volume_ball_fin_two] at hb
+  have e1 : (T.card : ENNReal) * ENNReal.ofReal (∏ a, h a) = ENNReal.ofReal ((T.card : ℝ) * ∏ a, h a) := by
+    rw [ENNReal.ofReal_mul (Nat.cast_nonneg _), ENNReal.ofReal_natCast]
+  have e2 : ENNReal.ofReal (R - halfDiag h) ^ 2 * ENNReal.ofReal Real.pi
+      = ENNReal.ofReal ((R - halfDiag h) ^ 2 * Real.pi) := by
+    rw [ENNReal.ofReal_mul (pow_nonneg hR 2), ENNReal.ofReal_pow hR]
+  rw [e1] at hb
+  change ENNReal.ofReal (R - halfDiag h) ^ 2 * ENNReal.ofReal Real.pi ≤ _ at hb
+  rw [e2] at hb
+  have hprod : 0 ≤ (T.card : ℝ) * ∏ a, h a := mul_nonneg (Nat.cast_nonneg _) (Finset.prod_nonneg fun a _ => (hh a).le)
+  exact (ENNReal.ofReal_le_ofReal_iff hprod).mp hb
+
+theorem card_vol_ge_one (T : Finset (Fin 1 → ℤ)) (o h c : Fin 1 → ℝ) (hh : ∀ a, 0 < h a) (R : ℝ) (hR : 0 ≤ R - halfDiag h)
+    (hT : ∀ n : Fin 1 → ℤ, ‖(toLp 2 (centre o h n) : EuclideanSpace ℝ (Fin 1)) - toLp 2 c‖ < R → n ∈ T) :
+    2 * (R - halfDiag h) ≤ (T.card : ℝ) * ∏ a, h a := by
+  have hb := ball_le_card_mul_cell T o h c hh R hT
+  rw [volume_ball_fin_one] at hb
+  have e1 : (T.card : ENNReal) * ENNReal.ofReal (∏ a, h a) = ENNReal.ofReal ((T.card : ℝ) * ∏ a, h a) := by
+    rw [ENNReal.ofReal_mul (Nat.cast_nonneg _), ENNReal.ofReal_natCast]
+  have e2 : ENNReal.ofReal (R - halfDiag h) ^ 1 * ENNReal.ofReal 2 = ENNReal.ofReal (2 * (R - halfDiag h)) := by
+    rw [pow_one, mul_comm, ENNReal.ofReal_mul (by norm_num)]
+  rw [e1] at hb
+  change ENNReal.ofReal (R - halfDiag h) ^ 1 * ENNReal.ofReal 2 ≤ _ at hb
+  rw [e2] at hb
+  have hprod : 0 ≤ (T.card : ℝ) * ∏ a, h a := mul_nonneg (Nat.cast_nonneg _) (Finset.prod_nonneg fun a _ => (hh a).le)
+  exact (ENNReal.ofReal_le_ofReal_iff hprod).mp hb
+
+end DV.Lattice
